@@ -599,7 +599,22 @@ func (p *process) SendPID(to gen.PID, message any) error {
 		}
 
 		if ok := queue.Push(qm); ok == false {
-			return gen.ErrProcessMailboxFull
+			// same overflow handling as node.RouteSendPID: forward to the fallback process
+			if p.fallback.Enable == false || p.fallback.Name == p.name {
+				return gen.ErrProcessMailboxFull
+			}
+			fbm := gen.MessageFallback{
+				PID:     p.pid,
+				Tag:     p.fallback.Tag,
+				Message: message,
+			}
+			fbto := gen.ProcessID{Name: p.fallback.Name, Node: p.node.name}
+			fboptions := gen.MessageOptions{
+				Priority:         p.priority,
+				Compression:      p.compression,
+				KeepNetworkOrder: p.keeporder,
+			}
+			return p.node.RouteSendProcessID(p.pid, fbto, fboptions, fbm)
 		}
 		
 		atomic.AddUint64(&p.messagesIn, 1)
